@@ -468,6 +468,7 @@ inductive VKind where
   | pairfirst (c : Nat)
   | loop
   | overlap (w : Nat)
+  | overlap2 (wl wr : Nat)      -- asymmetric window: look-back `wl`, look-ahead `wr`
   | downchunk (c : Nat)
   | exhaust (c : Nat)
 deriving Repr, DecidableEq
@@ -486,6 +487,11 @@ def loopId (b : Row) (ts : List Row) : Row :=
 def nearCount (w : Nat) (all : List Row) (r : Row) : Nat :=
   (all.filter fun x => decide ((x.time - r.time).natAbs ≤ w)).length
 def overlapId (w : Nat) (all : List Row) (r : Row) : Row := { r with id := (r.id * 31 + nearCount w all r) % MOD }
+/-- rows that start at most `wl` before and at most `wr` after `r` starts -/
+def nearCount2 (wl wr : Nat) (all : List Row) (r : Row) : Nat :=
+  (all.filter fun x => decide (r.time - wl ≤ x.time) && decide (x.time ≤ r.time + wr)).length
+def overlapId2 (wl wr : Nat) (all : List Row) (r : Row) : Row :=
+  { r with id := (r.id * 31 + nearCount2 wl wr all r) % MOD }
 def exhaustId (c n : Nat) (r : Row) : Row := { r with id := (r.id * 31 + c + n) % MOD }
 
 /-- whole-run meaning of one vocabulary kind: rows of the dependencies ↦ rows of the outputs -/
@@ -497,6 +503,7 @@ def wholeOf : VKind → List (List Row) → Option (List (List Row))
   | .pairfirst c, [x, _] => some [x.map (mapId c)]
   | .loop, [x, y] => some [loopRows loopId x y]
   | .overlap w, [x] => some [x.map (overlapId w x)]
+  | .overlap2 wl wr, [x] => some [x.map (overlapId2 wl wr x)]
   | .downchunk c, [x] => some [x.map (mapId c)]
   | .exhaust c, [x] => some [x.map (exhaustId c x.length)]
   | _, _ => none
